@@ -118,6 +118,50 @@ def png_rules(ctx, F):
     for key in gset:
         if key not in PNG_DECODE:
             ctx.finding(R, "png-decode|unspecified|%s" % key[0], "decode_row contains the update `%s` for i in %s..%s, which is not one of the PNG filter reconstruction formulas" % (key[0], key[1][0], key[1][1]), b.where())
+    # row discipline of decode_frame: every row that reaches the output was reconstructed by decode_row(filter, bpp, previous,
+    # current) and becomes `previous` for the next row (Up/Average/Paeth of row k+1 read row k, whatever its filter type was)
+    df = F.fn("filters::png::decode_frame")
+    dr = [c for c in df.calls if c.local and c.cname.endswith("png::decode_row")]
+    okd, whyd = False, "decode_row is not called exactly once"
+    if len(dr) == 1:
+        prev_o, cur_o = lib.origin_local(F, df, dr[0].args[2]), lib.origin_local(F, df, dr[0].args[3])
+        prev_l, cur_l = (prev_o[1] if prev_o else None), (cur_o[1] if cur_o else None)
+        loops = [(h, bl) for h, bl in df.loops().items() if dr[0].bb in bl]
+        whyd = "decode_row is not inside the row loop"
+        if loops and prev_l is not None and cur_l is not None and prev_l != cur_l:
+            head, blocks = min(loops, key=lambda x: len(x[1]))
+            swaps = [c for c in df.calls if c.bb in blocks and (c.fn or "").endswith("mem::swap")
+                     and {(lib.origin_local(F, df, a) or (0, None))[1] for a in c.args} == {prev_l, cur_l}]
+            outs = []
+            for c in df.calls:
+                if c.bb in blocks and re.search(r"(write_all|extend_from_slice|extend|push|append)$", c.fn or "") and c.args:
+                    o = lib.origin_local(F, df, c.args[0])
+                    if o is not None and o[0] is df and o[1] not in (prev_l, cur_l) and df.lty(o[1]).startswith("std::vec::Vec<u8"):
+                        outs.append(c)
+            okd, whyd = bool(outs) and bool(swaps), "no output write / no swap(previous, current) in the row loop"
+            for c in outs:
+                src = lib.origin_local(F, df, c.args[1]) if len(c.args) > 1 else None
+                if not df.dominates(dr[0].bb, c.bb) or src is None or src[1] != cur_l:
+                    okd, whyd = False, "a row is appended to the output (line %d) that is not `current` after decode_row" % c.ln
+                    break
+                # from the write, the loop head cannot be reached again without the swap
+                seen, st, esc = set(), [c.bb], False
+                sw = {x.bb for x in swaps}
+                while st:
+                    x = st.pop()
+                    if x in seen or x in sw:
+                        continue
+                    seen.add(x)
+                    for y in df.succ[x]:
+                        if y == head:
+                            esc = True
+                        elif y in blocks:
+                            st.append(y)
+                if esc:
+                    okd, whyd = False, "after the output write at line %d the next row can start without swap(previous, current)" % c.ln
+                    break
+    ctx.ob("R-ORDER", "png-row-discipline", okd, "every emitted row is `current` after decode_row and becomes `previous` (swap) before the next row", df.where(),
+           what="decode_frame: %s — the row above is wrong for the next Up/Average/Paeth row" % whyd)
     # filter type dispatch 0..4
     tf = F.fn("<FilterType as TryFrom>::try_from")
     sw = [tf.term(bi) for bi in range(tf.n) if tf.term(bi)["k"] == "switch"]
